@@ -731,8 +731,18 @@ static int load_touchstone1(ts_parser_state_t *tpsp)
 	    tpsp->tps_filename, tpsp->tps_line);
 	return -1;
     }
-    if (tpsp->tps_value_count == 5)
+    if (tpsp->tps_value_count == 5) {
+	/*
+	 * The file contains noise parameters only: the result is an
+	 * empty matrix, not whatever the structure held before.
+	 */
+	if (vnadata_init(vdp, tpsp->tps_parameter_type, 0, 0, 0) == -1) {
+	    _vnadata_error(vdip, VNAERR_SYSTEM,
+		    "realloc: %s", strerror(errno));
+	    return -1;
+	}
 	goto parse_noise_data;
+    }
 
     if (tpsp->tps_parameter_type == VPT_H ||
 	    tpsp->tps_parameter_type == VPT_G) {
